@@ -14,12 +14,21 @@ import tempfile
 import corpus
 from run import Broken, Violation, VERIF, REPO
 
-GEN = ["Effects", "ModState"]
+GEN = ["Effects", "ModState", "Ambient", "Observers"]
 RULE = ("cases = (fixture or generated document x hash seed) digests in fresh interpreters + (result x random observer "
         "sequence) + (payload stream x random op sequence vs the Lean stream model) + repeat/in-place checks (all framing "
         "variants: bytes in front of / behind the document) with a frame check of every process-global cell + (document x "
         "history): declare/use pairs, fixtures and variants extracted in opposite orders in fresh interpreters, each twice "
-        "+ (BytesIO x random read/write op sequence vs the Lean input-buffer model) + dict.setdefault overlay model; "
+        "+ (BytesIO x random read/write op sequence vs the Lean input-buffer model) + dict.setdefault overlay model "
+        "+ (document x environment): every digest interpreter has its own (hash seed, FAKED wall clock, time zone), the two in-process "
+        "extractions of one buffer run under two faked clocks, a difference is pinned to one coordinate "
+        "+ OPC packages with parts at non-default names reached through relationships (core / extended properties moved, stale, "
+        "dangling, unreferenced, absent x created / modified stated or not; main part and children renamed) and every optional "
+        "metadata member of one document per format dropped on its own (XLSX dates vs the Lean guard model) "
+        "+ (result x accessor-call sequence): every public accessor of the result and of the package objects reachable from it "
+        "with EVERY argument combination (introspected), followed by the defaults and the same request again, each answer "
+        "compared with the answer on a pristine result; payload streams consumed after all were collected; generated decks with "
+        "alt texts present / empty / absent; PptxSlide.get_text argument sequences vs the Lean slide-text model; "
         "distinct = distinct (input, seed) / (input, sequence) pairs; non-trivial = result has units/images/tables or "
         "the sequence contains at least two different observers")
 ASSUMPTIONS = [
@@ -28,8 +37,13 @@ ASSUMPTIONS = [
     "io.BytesIO semantics as modelled in S2T/Model/Observe.lean and S2T/Model/InputStream.lean (tied by correspondence on real streams)",
     "tools/gen/modstate.py finds every non-read use of a module-/class-level mutable container (AST + runtime types; callees a table is passed to are reviewed by hand); harness/workers/c06_state.py fingerprints every such cell around each extraction",
     "process state outside the package and outside the sampled interpreter registries (third-party module globals) is not fingerprinted",
+    "harness/workers/c06_clock.py replaces every Python-level read of the wall clock (datetime/date classes incl. from-imports, time.time/time_ns/localtime/gmtime/ctime/asctime/strftime); a C extension calling the OS clock directly is not faked — it would show only through the real-clock control environment and the ambient-read inventory",
+    "openpyxl takes core properties from its constant ARC_CORE only and fills missing dates from the clock (read from the installed openpyxl's AST by tools/gen/ambient.py; tied by the XLSX relocation matrix vs S2T.CoreDates.dates)",
+    "tools/gen/ambient.py recognises the clock / zone / randomness / process / temp-name / file-system reads it lists by dotted name (an alias such as `n = datetime.now; n()` is followed only through imports)",
+    "one image object (or a unit's view of it) asked twice for its bytes hands out the same rewound stream (S2T.Observe.getBytes): consuming an earlier handed-out stream after asking again is the caller's aliasing, not judged",
 ]
-TRUSTED = ["tools/gen/effects.py, tools/gen/modstate.py (AST inventories)", "harness/workers/c06_state.py (cell fingerprints)"]
+TRUSTED = ["tools/gen/effects.py, tools/gen/modstate.py, tools/gen/ambient.py, tools/gen/observers.py (AST inventories)", "harness/workers/c06_state.py (cell fingerprints)",
+           "harness/workers/c06_clock.py (faked wall clock)", "harness/props/c06_observe.py (accessor introspection, rendering)"]
 
 OBS = ["full_text", "units", "images", "tables", "metadata", "to_json"]
 
@@ -87,6 +101,8 @@ def _full_json(r):
 
 sys.path.insert(0, os.path.join(VERIF, "harness", "workers"))
 import c06_state  # noqa: E402
+import c06_clock  # noqa: E402
+from props import c06_env, c06_observe  # noqa: E402
 
 _VOLATILE = None
 
@@ -148,7 +164,9 @@ def _run_history_workers(jobs):
     for lo in range(0, len(jobs), 8):
         procs = []
         for k, job in enumerate(jobs[lo: lo + 8]):
-            env = dict(os.environ, PYTHONHASHSEED="0", S2T_REPO=REPO, PYTHONPATH=REPO)
+            # one faked wall clock for every history worker: a clock dependence is the environment check's finding
+            # (c06.clock), it must not look like a dependence on the documents extracted before
+            env = dict(os.environ, PYTHONHASHSEED="0", S2T_REPO=REPO, PYTHONPATH=REPO, S2T_FAKE_CLOCK="1500000000.5")
             p = subprocess.Popen(["/venv/bin/python", worker], stdin=subprocess.PIPE, stdout=subprocess.PIPE, stderr=subprocess.DEVNULL, env=env)
             p.stdin.write(json.dumps(job).encode())
             p.stdin.close()
@@ -406,6 +424,181 @@ def _observer_sequences(ctx, fx):
     return broken
 
 
+def _slide_text_model(ctx):
+    """real PptxSlide.get_text under random argument sequences on ONE slide object vs the stateless Lean model
+    S2T.ObserveArgs.text (proved equal to a copy-cache machine for every sequence)"""
+    broken = []
+    rng = ctx.rng
+    from sharepoint2text.parsing.extractors import data_types as dt
+    words = ["Quarterly results", "", "x", "a\nb", "[Image: fake]", "$", " ", "äö"]
+    reqs, reals = [], []
+    for _ in range(ctx.n(40, 400)):
+        base = rng.choice(words)
+        formulas = [[rng.random() < 0.5, rng.choice(["x^2", "", "\\frac{a}{b}", "$"])] for _ in range(rng.randint(0, 2))]
+        descs = [rng.choice(["", "Bar chart", "Logo", "a\nb", "]"]) for _ in range(rng.randint(0, 3))]
+        flags = [rng.random() < 0.5 for _ in range(rng.randint(1, 6))]
+        slide = dt.PptxSlide(slide_number=1, base_text=base, text=base,
+                             formulas=[dt.PptxFormula(latex=l, is_display=d) for d, l in formulas],
+                             images=[dt.PptxImage(image_index=i + 1, description=d, blob=b"x") for i, d in enumerate(descs)])
+        content = dt.PptxContent(slides=[slide])
+        real = []
+        for f in flags:
+            how = rng.randrange(3)      # through the slide, the units, the full text: all answer from the same slide
+            if how == 0:
+                real.append(slide.get_text(include_image_captions=f))
+            elif how == 1:
+                real.append([u.get_text() for u in content.iterate_units(include_image_captions=f)][0])
+            else:
+                real.append(content.get_full_text(include_image_captions=f))
+            if how != 0:
+                real[-1] = (real[-1], "stripped")
+        reqs.append({"op": "c06.slidetext", "base": base, "formulas": formulas, "descs": descs, "flags": flags})
+        reals.append(real)
+    for rq, real, o in zip(reqs, reals, ctx.drive(reqs)):
+        ctx.case(("slidetext", json.dumps(rq)), nontrivial=len(set(rq["flags"])) == 2 and any(rq["descs"]))
+        ctx.count("slidetext/" + ("captions" if any(rq["descs"]) else "no-captions"))
+        model = o.get("texts")
+        ok = model is not None and len(model) == len(real) and all(
+            (m.strip() == r[0]) if isinstance(r, tuple) else (m == r) for m, r in zip(model, real))
+        if not ok:
+            broken.append(Broken("correspondence", "c06.slidetext", f"PptxSlide.get_text sequence {rq['flags']}: real={real} model={o}",
+                                 case={"kind": "slidetext", "req": rq}))
+    return broken
+
+
+def _abstract_core(data):
+    """[[part name, created | None, modified | None]] of every well-formed core-properties part of a package (by content,
+    whatever the part is called)"""
+    import zipfile
+    import xml.etree.ElementTree as ET
+    out = []
+    with zipfile.ZipFile(io.BytesIO(data)) as z:
+        for n in z.namelist():
+            if n.endswith("/") or not n.lower().endswith((".xml", ".psmdcp")):
+                continue
+            try:
+                root = ET.fromstring(z.read(n))
+            except ET.ParseError:
+                continue
+            if root.tag.rsplit("}", 1)[-1] != "coreProperties":
+                continue
+            vals = {}
+            for ch in root:
+                vals.setdefault(ch.tag.rsplit("}", 1)[-1], (ch.text or "").strip())
+            out.append([n, vals.get("created"), vals.get("modified")])
+    return out
+
+
+def _core_dates_model(ctx, opc):
+    """XLSX relocation variants: the metadata dates the real extractor reports vs S2T.CoreDates.dates for the guard part /
+    library part of the current source (proved clock free when the two agree)"""
+    broken = []
+    docs = [(n, d) for n, d in opc if n.lower().endswith((".xlsx", ".xlsm"))]
+    reqs = []
+    for name, data in docs:
+        reqs.append({"op": "c06.coredates", "parts": _abstract_core(data), "now": "NOW"})
+    for (name, data), rq, o in zip(docs, reqs, ctx.drive(reqs)):
+        rs = _results_of(name, data)
+        if not rs:
+            continue
+        md = rs[0].to_json().get("metadata", {})
+        real = [str(md.get("created") or ""), str(md.get("modified") or "")]
+        model = [o.get("created"), o.get("modified")]
+        ctx.case(("coredates", name), nontrivial=any(p[1] or p[2] for p in rq["parts"]))
+        ctx.count("coredates/" + ("stated" if any(real) else "none"))
+        same = all((m == "" and r == "") or (m not in ("", "NOW", None) and r[:19] == m[:19]) for m, r in zip(model, real))
+        if not same:
+            broken.append(Broken("correspondence", "c06.coredates", f"{name}: metadata created/modified real={real} model={model} (core parts {rq['parts']})",
+                                 case={"kind": "coredates-model", "fixture": name, "data_b64": base64.b64encode(data).decode()}))
+    return broken
+
+
+def obligations(ctx):
+    """closed world, decided on the classes of the CURRENT library at run time: every optional accessor parameter of every
+    package class has a value domain in c06_observe.param_domain (otherwise nobody varies it)"""
+    import inspect
+    import pkgutil
+    import importlib
+    import sharepoint2text
+    broken = []
+    classes = []
+    for m in pkgutil.walk_packages(sharepoint2text.__path__, "sharepoint2text."):
+        if ".tests" in m.name or "sharepoint_io" in m.name:
+            continue
+        try:
+            mod = importlib.import_module(m.name)
+        except Exception:
+            continue
+        classes += [c for c in vars(mod).values() if inspect.isclass(c) and c.__module__ == mod.__name__ and hasattr(c, "__dataclass_fields__")]
+    for cls, meth, param, ok in c06_observe.inventory(classes):
+        if not ok:
+            broken.append(Broken("inventory", "c06.accessor-domain", f"{cls}.{meth}({param}=…): no value domain for this parameter, observer sequences would never vary it"))
+    return broken
+
+
+def _stratified(ctx, docs, n_random):
+    """the smallest document of every extension (so that every content class is met on every run) + a random rest"""
+    by_ext = {}
+    for n, d in docs:
+        ext = os.path.splitext(n)[1].lower()
+        if ext not in by_ext or len(d) < len(by_ext[ext][1]):
+            by_ext[ext] = (n, d)
+    first = [by_ext[e] for e in sorted(by_ext)]
+    rest = [x for x in docs if x not in first]
+    return first + (rest if ctx.thorough else ctx.rng.sample(rest, min(n_random, len(rest))))
+
+
+def _observer_arg_sequences(ctx, fx, must=()):
+    """(result x sequence of accessor calls with EVERY argument combination, then re-observed with the defaults):
+    each answer must equal the answer of the same call on a pristine result (c06_observe)"""
+    broken = []
+    rng = ctx.rng
+    docs = [(n, d) for n, d in fx if len(d) < (2_000_000 if ctx.thorough else 500_000) and "password" not in n and corpus.file_type_of(n)]
+    picks = list(must) + _stratified(ctx, docs, 12)
+    for name, data in picks:
+        results = _results_of(name, data)
+        if not results:
+            continue
+        for ri, r in enumerate(results[:3]):
+            calls = c06_observe.all_calls(r)
+            try:
+                pristine = copy.deepcopy(r)
+            except Exception:
+                pristine = None
+            fresh = (lambda pr=pristine: copy.deepcopy(pr)) if pristine is not None else (lambda ri=ri: _results_of(name, data)[ri])
+            for _ in range(ctx.n(1, 3)):
+                seq = c06_observe.make_sequence(rng, calls, ctx.n(6, 12))
+                argful = sum(1 for c in seq if c[2])
+                ctx.case(("observe-args", name, ri, tuple(c06_observe.key(c) for c in seq)), nontrivial=len({c06_observe.key(c) for c in seq}) >= 2)
+                ctx.count(f"observe-args/{type(r).__name__}" + ("/with-arguments" if argful else ""))
+                target = copy.deepcopy(pristine) if pristine is not None else r
+                bad = c06_observe.run_sequence(fresh, target, seq, _full_json)
+                if bad is not None:
+                    i, what, detail = bad
+                    short = c06_observe.shrink(fresh, seq, i, _full_json)
+                    broken.append(Broken("correspondence", "c06.observer-args" if what == "answer" else "c06.readonly",
+                                         f"{name}: {detail}",
+                                         case={"kind": "observe2", "fixture": name, "result": ri, "calls": [list(c) for c in short]}))
+                    break
+    return broken
+
+
+def _replay_observe2(c, data):
+    """fresh extractions as pristine results (independent of deepcopy)"""
+    name, ri = c["fixture"], c.get("result", 0)
+    calls = [(x[0], x[1], x[2]) for x in c["calls"]]
+
+    def fresh():
+        rs = _results_of(name, data)
+        if not rs or len(rs) <= ri:
+            raise RuntimeError("document no longer extracts")
+        return rs[ri]
+    bad = c06_observe.run_sequence(fresh, fresh(), calls, _full_json)
+    if bad is not None:
+        return False, bad[2]
+    return True, "every call answers as on a fresh result: " + ", ".join(c06_observe.label(x) for x in calls)
+
+
 def _repeat_and_input(ctx, fx, must=()):
     """`must` documents are always checked (framing variants, declare/use pairs), `fx` is sampled in the quick tier"""
     broken = []
@@ -414,6 +607,23 @@ def _repeat_and_input(ctx, fx, must=()):
         picks = ctx.rng.sample(picks, min(25, len(picks)))
     picks = list(must) + picks
     vol = _volatile(ctx)
+    from sharepoint2text.parsing import router
+    for name, data in picks:          # load the extractor modules first: the faked clock rebinds their `datetime` imports
+        ft = corpus.file_type_of(name)
+        if ft is not None:
+            corpus.extractor(*router._EXTRACTOR_REGISTRY[ft])
+    # the two extractions of one buffer run under two different FAKED wall clocks (years apart, other time of day)
+    clocks = (1046747106.25, 1893553199.75)
+    c06_clock.install(clocks[0])
+    try:
+        broken += _repeat_loop(ctx, picks, vol, clocks)
+    finally:
+        c06_clock.uninstall()
+    return broken
+
+
+def _repeat_loop(ctx, picks, vol, clocks):
+    broken = []
     from sharepoint2text.parsing import router
     for name, data in picks:
         ft = corpus.file_type_of(name)
@@ -424,8 +634,10 @@ def _repeat_and_input(ctx, fx, must=()):
         buf = io.BytesIO(data)
         outs = []
         cells = []
+        c06_clock.set_clock(clocks[0])
         after = c06_state.cells()
         for k in range(2):
+            c06_clock.set_clock(clocks[k])
             before, nmods = after, len(sys.modules)
             try:
                 outs.append([_full_json(r) for r in fn(buf, name)])
@@ -440,7 +652,7 @@ def _repeat_and_input(ctx, fx, must=()):
         ctx.count("repeat/" + ("ok" if isinstance(outs[0], list) else "family"))
         ref = _doc_ref(name, data)
         if outs[0] != outs[1]:
-            broken.append(Broken("correspondence", "c06.repeat", f"{name}: two extractions of the same buffer in one process differ", case={"kind": "repeat", "fixture": name, **({"data_b64": ref["data_b64"]} if "data_b64" in ref else {})}))
+            broken.append(Broken("correspondence", "c06.repeat", f"{name}: two extractions of the same buffer in one process (wall clock faked to {clocks[0]} and {clocks[1]}) differ" + _first_diff(outs), case={"kind": "repeat", "fixture": name, **({"data_b64": ref["data_b64"]} if "data_b64" in ref else {})}))
         if buf.getvalue() != data:
             now = buf.getvalue()
             broken.append(Broken("correspondence", "c06.input", f"{name}: the caller's buffer content changed ({len(data)} bytes {data[:12]!r}… before, {len(now)} bytes {now[:12]!r}… after)",
@@ -451,36 +663,56 @@ def _repeat_and_input(ctx, fx, must=()):
     return broken
 
 
+def _first_diff(outs):
+    try:
+        a, b = outs
+        if isinstance(a, list) and isinstance(b, list) and len(a) == len(b):
+            for x, y in zip(a, b):
+                if x != y:
+                    k = next((i for i, (p, q) in enumerate(zip(x, y)) if p != q), min(len(x), len(y)))
+                    return f": …{x[max(0, k - 60): k + 40]}… vs …{y[max(0, k - 60): k + 40]}…"
+    except Exception:
+        pass
+    return ""
+
+
 def _hash_seeds(ctx, fx_paths):
-    """digests of every fixture in fresh interpreters under different PYTHONHASHSEED values"""
+    """digests of every fixture in fresh interpreters under different environments: PYTHONHASHSEED, a faked wall clock
+    and a time zone per interpreter (c06_env.ENVS_*; the first one is the unmodified environment).  A difference is
+    pinned to the single coordinate that causes it."""
     broken = []
-    seeds = ["0", "1", "2", "12345"] if not ctx.thorough else ["0", "1", "2", "3", "5", "77", "12345", "random"]
+    envs = c06_env.ENVS_THOROUGH if ctx.thorough else c06_env.ENVS_QUICK
     worker = os.path.join(VERIF, "harness", "workers", "c06_digest.py")
+    outs = c06_env.run_digests(worker, envs, fx_paths, REPO)
     tables = {}
-    procs = []
-    for s in seeds:
-        env = dict(os.environ, PYTHONHASHSEED=s, S2T_REPO=REPO, PYTHONPATH=REPO)
-        p = subprocess.Popen(["/venv/bin/python", worker], stdin=subprocess.PIPE, stdout=subprocess.PIPE, stderr=subprocess.DEVNULL, env=env)
-        p.stdin.write(json.dumps(fx_paths).encode())
-        p.stdin.close()
-        procs.append((s, p))
-    for s, p in procs:
-        out = p.stdout.read()
-        p.wait()
-        try:
-            tables[s] = json.loads(out)
-        except Exception:
-            broken.append(Broken("correspondence", "c06.worker", f"digest worker failed for seed {s}"))
+    for env, t in zip(envs, outs):
+        if t is None:
+            broken.append(Broken("correspondence", "c06.worker", f"digest worker failed for {c06_env.describe(env)}"))
+        else:
+            tables[env["seed"]] = t
+    by_seed = {e["seed"]: e for e in envs}
     if len(tables) >= 2:
-        ref_seed = seeds[0]
-        for rel, _ in fx_paths:
+        ref_seed = next(e["seed"] for e in envs if e["seed"] in tables)
+        pinned = 0
+        for rel, path in fx_paths:
             vals = {s: tables[s].get(rel) for s in tables}
             ctx.case(("seed", rel, tuple(sorted(tables))), nontrivial=not str(vals[ref_seed]).startswith(("ERR", "OTHER")))
             ctx.count("hashseed/" + ("same" if len(set(vals.values())) == 1 else "DIFFERENT"))
             if len(set(vals.values())) != 1:
-                broken.append(Broken("correspondence", "c06.hashseed", f"{rel}: to_json digest differs between hash seeds {vals}",
-                                     case={"kind": "seed", "fixture": rel, "seeds": sorted(tables)}))
-    ctx.sample({"hash_seeds": seeds, "files": len(fx_paths)})
+                other = next(s for s in vals if vals[s] != vals[ref_seed])
+                cause, pair = ("environment", [by_seed[ref_seed], by_seed[other]])
+                if pinned < 4:
+                    pinned += 1
+                    cause, pair = c06_env.pin_cause(worker, by_seed[ref_seed], by_seed[other], rel, path, REPO)
+                if cause == "hashseed":
+                    broken.append(Broken("correspondence", "c06.hashseed", f"{rel}: to_json digest differs between hash seeds {vals}",
+                                         case={"kind": "seed", "fixture": rel, "seeds": sorted(tables)}))
+                else:
+                    broken.append(Broken("correspondence", "c06." + cause,
+                                         f"{rel}: to_json digest differs between [{c06_env.describe(pair[0])}] and [{c06_env.describe(pair[1])}] "
+                                         f"(fresh interpreters, same bytes, same path)",
+                                         case={"kind": "env", "fixture": rel, "envs": pair}))
+    ctx.sample({"environments": [c06_env.describe(e) for e in envs], "files": len(fx_paths)})
     return broken
 
 
@@ -612,9 +844,18 @@ def correspondence(ctx):
     fx = corpus.fixtures()
     broken = []
     variants = _accepted_variants(ctx, fx, ctx.n(1, 8)) + _generated_docs(ctx)
+    # parts at non-default names reached through relationships x optional members; decks with optional alt texts
+    opc = [(n, d) for n, d in c06_env.opc_docs(ctx, fx, corpus.file_type_of) if _results_of(n, d)]
+    decks = [(n, d) for n, d in c06_env.rich_decks(ctx, ctx.n(3, 10)) if _results_of(n, d)]
+    members = c06_env.member_docs(ctx, fx, corpus.file_type_of, _results_of)      # each optional metadata member dropped on its own
+    ctx.count("variants/opc", len(opc))
+    ctx.count("variants/member-drops", len(members))
+    variants += opc + decks + members
     framed = _framing_variants(ctx, fx, per_ext=None if ctx.thorough else 7)
     pairs = _pair_docs(ctx, ctx.n(2, 8))
     pair_docs = [d for _, a, b in pairs for d in (a, b)]
+    for n, d in variants + framed + pair_docs:      # every generated document can be put into a replay file by content
+        _DATA[n] = d
     for tag, a, b in pairs[:3]:
         ctx.sample({"declare_use_pair": tag, "A": a[0], "B": b[0]})
     ctx.count("variants/accepted", len(variants))
@@ -628,9 +869,12 @@ def correspondence(ctx):
                 fh.write(b)
             fx_paths.append((name, p))
         broken += _hash_seeds(ctx, fx_paths)
-    broken += _repeat_and_input(ctx, fx + variants, must=framed + pair_docs)
-    broken += _history(ctx, _history_set(ctx, fx, pairs, framed))
+    broken += _repeat_and_input(ctx, fx + variants, must=framed + pair_docs + opc + members)
+    broken += _history(ctx, _history_set(ctx, fx, pairs, framed) + (opc if ctx.thorough else ctx.rng.sample(opc, min(6, len(opc)))))
     broken += _observer_sequences(ctx, fx + variants)
+    broken += _observer_arg_sequences(ctx, fx + variants, must=decks)
+    broken += _slide_text_model(ctx)
+    broken += _core_dates_model(ctx, opc)
     broken += _stream_model(ctx, fx)
     broken += _instream_model(ctx)
     broken += _overlay_model(ctx)
@@ -644,6 +888,15 @@ def _violation_of(b):
         if ("~" in c.get("fixture", "") or c.get("fixture", "").startswith("generated/")) and c["fixture"] in _DATA and "data_b64" not in c:
             c["data_b64"] = base64.b64encode(_DATA[c["fixture"]]).decode()
         return Violation(b.name.replace("c06.", "") + ":" + os.path.basename(c.get("fixture", "?")), b.detail, c)
+    if kind == "env":
+        if ("~" in c.get("fixture", "") or c.get("fixture", "").startswith("generated/")) and c["fixture"] in _DATA and "data_b64" not in c:
+            c["data_b64"] = base64.b64encode(_DATA[c["fixture"]]).decode()
+        return Violation(b.name.replace("c06.", "") + ":" + os.path.basename(c.get("fixture", "?")), b.detail, c)
+    if kind == "observe2":
+        if ("~" in c.get("fixture", "") or c.get("fixture", "").startswith("generated/")) and c["fixture"] in _DATA and "data_b64" not in c:
+            c["data_b64"] = base64.b64encode(_DATA[c["fixture"]]).decode()
+        last = c["calls"][-1] if c.get("calls") else ["", "?", None]
+        return Violation(b.name.replace("c06.", "") + ":" + os.path.basename(c.get("fixture", "?")) + ":" + str(last[1]), b.detail, c)
     if kind == "history":
         return Violation("history:" + os.path.basename(c["doc"]["name"]).split("~")[-1] + "<-" + os.path.basename(c["before"][0]["name"]).split("~")[-1], b.detail, c)
     return None
@@ -678,13 +931,28 @@ def search(ctx, broken):
                 named.append((c["doc"]["name"], _doc_bytes(c["doc"])))
             except Exception:
                 pass
-    found = _repeat_and_input(sub, [], must=framed + pair_docs)
+    opc = [(n, d) for n, d in c06_env.opc_docs(sub, fx, corpus.file_type_of) if _results_of(n, d)]
+    decks = [(n, d) for n, d in c06_env.rich_decks(sub, 12) if _results_of(n, d)]
+    members = c06_env.member_docs(sub, fx, corpus.file_type_of, _results_of)
+    for n, d in framed + pair_docs + opc + decks + members:
+        _DATA[n] = d
+    found = _repeat_and_input(sub, [], must=framed + pair_docs + opc + members)
     found = [b for b in found if (b.case or {}).get("kind") != "modstate"]
+    if not found:
+        # observer-side obligations (effects inventory, accessor inventory, instance caches) are decided by call sequences
+        found += _observer_arg_sequences(sub, [(n, d) for n, d in fx if len(d) < 2_000_000] + opc[:6], must=decks)
     if not found:
         hist = named + [d for d in _history_set(sub, [(n, d) for n, d in fx if len(d) < 300_000], pairs, framed[::4]) if d[0] not in {n for n, _ in named}]
         found += [b for b in _history(sub, hist) if (b.case or {}).get("kind") == "history"]
     if not found:
-        found += _repeat_and_input(sub, fx) + _hash_seeds(sub, fx_paths) + _observer_sequences(sub, fx)
+        with tempfile.TemporaryDirectory(prefix="s2t_c06s_") as td:
+            extra = []
+            for i, (n, d) in enumerate(opc + decks + members):
+                p = os.path.join(td, f"g{i}_" + os.path.basename(n))
+                with open(p, "wb") as fh:
+                    fh.write(d)
+                extra.append((n, p))
+            found += _repeat_and_input(sub, fx) + _hash_seeds(sub, fx_paths + extra) + _observer_sequences(sub, fx)
     for b in found:
         v = _violation_of(b)
         if v is not None:
@@ -711,6 +979,22 @@ def replay(ctx, payload):
         if f != a:
             return False, f"{target[0]} yields {str(a)[:16]} after {names} were extracted in the same process, {str(f)[:16]} in a fresh process"
         return True, f"{target[0]} yields the same in a fresh process and after {names}"
+    if c.get("kind") == "observe2":
+        return _replay_observe2(c, fx[c["fixture"]])
+    if c.get("kind") == "env":
+        worker = os.path.join(VERIF, "harness", "workers", "c06_digest.py")
+        with tempfile.TemporaryDirectory(prefix="s2t_c06_") as td:
+            p = os.path.join(corpus.RES, c["fixture"])
+            if "data_b64" in c:
+                p = os.path.join(td, os.path.basename(c["fixture"]).replace("~", "_"))
+                with open(p, "wb") as fh:
+                    fh.write(fx[c["fixture"]])
+            ta, tb = c06_env.run_digests(worker, c["envs"], [[c["fixture"], p]], REPO)
+        if not ta or not tb:
+            return False, "digest worker failed"
+        a, b = ta.get(c["fixture"]), tb.get(c["fixture"])
+        msg = f"{c['fixture']}: digest {str(a)[:16]} under [{c06_env.describe(c['envs'][0])}], {str(b)[:16]} under [{c06_env.describe(c['envs'][1])}]"
+        return a == b, msg
     if c.get("kind") == "seed" and "data_b64" in c:
         with tempfile.TemporaryDirectory(prefix="s2t_c06_") as td:
             p = os.path.join(td, os.path.basename(c["fixture"]))
